@@ -14,7 +14,8 @@ From Coq Require Import List ZArith Bool.
 Import ListNotations.
 From TI Require Import lib.Term lib.TermFacts lib.Rect lib.Lines model.Block model.GfxRender
      proofs.BlockRect proofs.GfxRect
-     model.RenderSession model.RenderTie model.RenderSessionTie proofs.RenderSessionProofs.
+     model.RenderSession model.RenderTie model.RenderSessionTie proofs.RenderSessionProofs
+     model.TermIdent model.TermIdentTie proofs.TermIdentProofs proofs.TermIdentTieProofs.
 Open Scope Z_scope.
 
 (** block style: every pixel content, alpha mode, kitty work-around, terminal background,
@@ -115,3 +116,82 @@ Theorem C01_session_tie_sound :
     forall t, In (SDone t) sc -> Rect (t_w t) (t_h t) (t_obs t).
 Proof. exact session_tie_sound. Qed.
 Print Assumptions C01_session_tie_sound.
+
+(** ** Terminal identity: "any terminal quirk mode" quantifies over TERMINALS, not over values of
+    a private class attribute.  The terminal reports an identity; the library detects it
+    ([is_supported()], which records it as a side effect) by whatever route the application
+    takes; the render must meet the contract under the conventions of THAT terminal
+    (model/TermIdent.v: [kind_of], [views], [RectOn]). *)
+
+(** whatever support checks, forced-support switches and cache clearings on whatever classes
+    of the chain precede it: an instance that could be constructed renders with exactly what
+    the detection derives from the identity ([D]: the recorded data, [detect]: the detection's
+    result for the identity) *)
+Theorem C01_ident_route :
+  forall (D : Type) (detect : option D) (ops : list rop) (k : nat) (r : option D),
+    route_rec detect ops k = Some r -> r = detect.
+Proof. exact route_rec_detect. Qed.
+Print Assumptions C01_ident_route.
+
+(** the design in which forced support short-circuits the support check is excluded: on a
+    supported terminal, with forced support on and no earlier check, nothing is recorded *)
+Theorem C01_ident_route_excludes_shortcut :
+  forall (D : Type) (d : D),
+    route_rec_lazy (Some d) [RForce 1 true] 1 = Some None
+    /\ route_rec (Some d) [RForce 1 true] 1 = Some (Some d).
+Proof. exact route_rec_lazy_refuted. Qed.
+Print Assumptions C01_ident_route_excludes_shortcut.
+
+(** for EVERY identity a terminal may report, the iterm2 renders (LINES; WHOLE = native ANIM =
+    ANIM falling back to WHOLE) made in the mode the library derives from that identity meet the
+    contract under that terminal's conventions *)
+Theorem C01_ident_iterm2_rect :
+  forall (i : ident) (w h : Z) (mix : bool), 0 < w -> 0 < h ->
+    (forall sps : list (Z * Z), Z.of_nat (length sps) = h ->
+       RectOn (kind_of i) mix w h (iterm2_lines_for (iterm2_recorded i) w mix sps))
+    /\ (forall sp : Z * Z,
+       RectOn (kind_of i) mix w h (iterm2_whole_for (iterm2_recorded i) w h mix sp)).
+Proof. exact ident_iterm2_rect. Qed.
+Print Assumptions C01_ident_iterm2_rect.
+
+(** ... after ANY route: [term] is what an instance of class [k] sees recorded after [ops] *)
+Theorem C01_ident_route_iterm2_rect :
+  forall (i : ident) (ops : list rop) (k : nat) (term : option bytes) (w h : Z) (mix : bool),
+    route_rec (iterm2_recorded i) ops k = Some term -> 0 < w -> 0 < h ->
+    (forall sps : list (Z * Z), Z.of_nat (length sps) = h ->
+       RectOn (kind_of i) mix w h (iterm2_lines_for term w mix sps))
+    /\ (forall sp : Z * Z, RectOn (kind_of i) mix w h (iterm2_whole_for term w h mix sp)).
+Proof. exact route_iterm2_rect. Qed.
+Print Assumptions C01_ident_route_iterm2_rect.
+
+(** a render made in the mode of ANOTHER identity is outside: on Konsole every LINES render
+    made in plain or WezTerm mode, of every size, violates the contract *)
+Theorem C01_ident_other_mode_on_konsole :
+  forall (w h : Z) (wz mix : bool) (sps : list (Z * Z)),
+    0 < h -> Z.of_nat (length sps) = h ->
+    ~ RectOn KKonsole mix w h (iterm2_lines w false wz mix sps).
+Proof. exact other_mode_on_konsole_lines_refuted. Qed.
+Print Assumptions C01_ident_other_mode_on_konsole.
+
+(** kitty: the frames of an animation are rendered with arguments derived from the identity
+    (z-index, blend policy from the recorded version); for every identity they meet the contract *)
+Theorem C01_ident_kitty_frame_rect :
+  forall (i : ident) (w h : Z) (mix : bool), 0 < w -> 0 < h ->
+    (forall pls : list (list Z), Z.of_nat (length pls) = h ->
+       Rect w h (kitty_frame_lines_for (kitty_recorded i) w mix pls))
+    /\ (forall pl : list Z, Rect w h (kitty_frame_whole_for (kitty_recorded i) w h mix pl)).
+Proof. exact ident_kitty_frame_rect. Qed.
+Print Assumptions C01_ident_kitty_frame_rect.
+
+(** soundness of the executable identity comparison: when the model's prediction for the
+    driven route equals the observed render, the observed render meets the contract under the
+    conventions of the terminal the identity denotes *)
+Theorem C01_ident_tie_sound :
+  forall (c : icase) (m : imethod) (mix : bool),
+    ic_render c = IIterm m mix ->
+    imodel c = Some (ic_obs c) ->
+    0 < ic_w c -> 0 < ic_h c ->
+    (m = MLines -> Z.of_nat (length (iterm_sps (ic_obs c))) = ic_h c) ->
+    RectOn (kind_of (ic_ident c)) mix (ic_w c) (ic_h c) (ic_obs c).
+Proof. exact ident_tie_sound. Qed.
+Print Assumptions C01_ident_tie_sound.
